@@ -61,6 +61,15 @@ type DB struct {
 	unmergeableRoots int
 	tombstoned       bool
 	kvVersion        int // crdt.Root.KVVersion, root format version (0, 1)
+	// unstored is set while the tree's nodes have been flushed for a version
+	// whose version object could not be stored: the tree looks clean, but
+	// nothing refers to those nodes yet.
+	unstored bool
+	// flushFailed is set when storing the tree's nodes failed. mast marks a
+	// node clean as soon as its store is queued, so after a failed flush the
+	// in-memory tree no longer knows which nodes never reached the bucket and
+	// must not be committed again.
+	flushFailed bool
 }
 
 // Config defines how values are stored and (un)marshaled.
@@ -486,6 +495,9 @@ func loadRoot(ctx context.Context, persist mast.Persist, key string) (*crdt.Root
 
 // Commit ensures any Set() entries become accessible on subsequent Open()s.
 func (s *DB) Commit(ctx context.Context) (*string, error) {
+	if s.flushFailed {
+		return nil, errors.New("an earlier commit failed while storing nodes; cancel this handle and open a new one")
+	}
 	if !s.IsDirty() && !s.tombstoned && (s.crdt.Source != nil && len(s.crdt.MergeSources) <= 1 ||
 		s.crdt.Source == nil && len(s.crdt.MergeSources) == 0) {
 		return s.crdt.Source, nil
@@ -495,6 +507,7 @@ func (s *DB) Commit(ctx context.Context) (*string, error) {
 	}
 	root, err := s.crdt.MakeRoot(ctx)
 	if err != nil {
+		s.flushFailed = true
 		return nil, fmt.Errorf("mast makeroot: %w", err)
 	}
 	root.KVVersion = s.kvVersion
@@ -520,8 +533,10 @@ func (s *DB) Commit(ctx context.Context) (*string, error) {
 	name := fmt.Sprintf("%s%06s_%s", s.cfg.CustomRootPrefix, crTime, hash)
 	err = s.root.Store(ctx, name, rootBytes)
 	if err != nil {
+		s.unstored = true
 		return nil, fmt.Errorf("store: %w", err)
 	}
+	s.unstored = false
 	s.moveMergedRoots(ctx, name, s.mergedRoots)
 	s.mergedRoots = map[string][]byte{name: rootBytes}
 	s.crdt.MergeSources = []string{name}
@@ -781,7 +796,7 @@ func (s *DB) getHistoricRootsAndNodes(
 
 // IsDirty returns true if there are entries in memory that haven't been Commit()ted.
 func (s DB) IsDirty() bool {
-	return s.tombstoned || s.crdt.IsDirty()
+	return s.tombstoned || s.unstored || s.crdt.IsDirty()
 }
 
 // Set puts a new value in memory. If the database already has a value later than "when", this does
